@@ -148,7 +148,7 @@ let u_eofhyp c =
 
 (* the lexer link of FormatCrlfProofs.format_crlf_input (lex_crlf_commutes): the lexer cuts the CRLF-ed input into the tokens of the
    input with CRLF-ed leading whitespace.  LexerCrlfProofs.lex_crlf proves it when crlf_link_okb holds (no LF or CR in a token text,
-   block comments and directives terminated).  Measured here: how often crlf_link_okb holds; where it does the link must hold (a
+   directives terminated).  Measured here: how often crlf_link_okb holds; where it does the link must hold (a
    theorem, re-checked: DIFF otherwise); where it does not, whether the link holds anyway. *)
 let u_crlfhyp c =
   match lex_segments (bytes_of_string c.input) with
@@ -162,7 +162,7 @@ let u_crlfhyp c =
     if hyp then (if commutes then Ok_ else Diff "crlf_link_okb holds but the lexer cuts the CRLF-ed input differently")
     else begin
       let eol_in_text = List.exists (fun ((_, ct), _) -> let t = string_of_bytes ct in String.contains t '\n' || String.contains t '\r') segs in
-      Viol (Printf.sprintf "crlf_link_false_%s_%s" (if eol_in_text then "line_break_in_a_token" else "unterminated_comment_or_directive")
+      Viol (Printf.sprintf "crlf_link_false_%s_%s" (if eol_in_text then "line_break_in_a_token" else "unterminated_directive")
               (if commutes then "commutes" else "does_NOT_commute"), "crlf_link_okb does not hold")
     end
   | _ -> Skip
